@@ -67,7 +67,7 @@ pub fn gen_sched_script(t: &mut Tape, p: &SchedProfile) -> Script {
     s.can_start = t.vec_of(3, |t| t.weighted(&[6, 1, 1]) as u8);
     s.reboot_needed = t.vec_of(4, |t| !t.chance(1, 4));
     s.reboot_allowed = t.vec_of(8, |t| (t.chance(1, 3), !t.chance(1, 3)));
-    s.installs = t.vec_of(3, |t| InstallSpec { results: t.vec_of(2, |t| t.weighted(&[5, 1, 1]) as u8), progress: t.vec_of(8, |t| t.choose(101) as f32 / 100.0), concurrent: if t.chance(1, 3) { 2 + t.choose(2) as u8 } else { 0 } });
+    s.installs = t.vec_of(3, |t| InstallSpec { results: t.vec_of(2, |t| t.weighted(&[5, 1, 1]) as u8), progress: t.vec_of(8, |t| t.choose(101) as f32 / 100.0), concurrent: match t.weighted(&[4, 2, 1]) { 0 => 0, 1 => 2 + t.choose(2) as u8, _ => IMPATIENT } });
     s.reboots = t.vec_of(2, |t| !t.chance(1, 5));
     s
 }
